@@ -49,6 +49,21 @@ impl Stage {
             Stage::Locked(_) => Stage::Locked(wire::de(&b)?),
         })
     }
+    /// write out and read back with a self-describing format (serde_json): the derives promise this for every format
+    pub fn restore_json(&self) -> Result<Vec<u8>, String> {
+        fn rt<T: serde::Serialize + serde::de::DeserializeOwned>(x: &T) -> Result<Vec<u8>, String> {
+            let js = serde_json::to_vec(x).map_err(|e| format!("to JSON: {}", e))?;
+            let back: T = serde_json::from_slice(&js).map_err(|e| format!("from JSON: {}", e))?;
+            Ok(wire::ser(&back))
+        }
+        match self {
+            Stage::Requested(x) => rt(x),
+            Stage::Inactive(x) => rt(x),
+            Stage::Ready(x) => rt(x),
+            Stage::Started(x) => rt(x),
+            Stage::Locked(x) => rt(x),
+        }
+    }
     pub fn balances(&self) -> (u64, u64) {
         match self {
             Stage::Requested(x) => (x.customer_balance().into_inner(), x.merchant_balance().into_inner()),
@@ -231,6 +246,14 @@ impl<'a> Hist<'a> {
             let restored = if self.restore { match stage.restore() { Ok(s) => Some(s), Err(e) => { ctx.violation(&format!("customer state ({}) cannot be restored from its own encoding: {}", stage.name(), e), json!({"class": "restore-fails", "stage": stage.name(), "bytes": hex::encode(&before_bytes)})); None } } } else { None };
             let obj = |ctx: &mut Ctx| -> Option<Option<Obj>> { if r.is_zero { match zero.and_then(|f| f()) { Some(o) => Some(Some(o)), None => { ctx.broken("the merchant API did not produce a reply under a zero randomiser"); None } } } else { Some(None) } };
             let o1 = match obj(ctx) { Some(o) => o, None => { self.stage = Some(stage); continue; } };
+            if self.restore {
+                ctx.evals += 1;
+                match stage.restore_json() {
+                    Ok(b) if b == before_bytes => ctx.count("restore:json:same"),
+                    Ok(_) => ctx.violation(&format!("customer state ({}) written as JSON and read back differs from the original", stage.name()), json!({"class": "json-restore-differs", "stage": stage.name()})),
+                    Err(e) => ctx.violation(&format!("customer state ({}) cannot be restored from its own JSON form: {}", stage.name(), e), json!({"class": "json-restore-fails", "stage": stage.name(), "error": e})),
+                }
+            }
             let (after, accepted, lockmsg) = apply(stage, &r.bytes, o1, self.w);
             if let Some(rs) = restored {
                 let o2 = match obj(ctx) { Some(o) => o, None => None };
